@@ -110,6 +110,51 @@ async fn run(name: &str) -> Result<(), String> {
             if s1 > s0 { Ok(()) }
             else { Err(format!("the path set was changed to [big, q] 15 ms after start-up, while the worker was registering `big` (registered within {busy_for:?}); no further change followed, yet q is not registered: writing q/x.txt produced no event (batches {s0} -> {s1})")) }
         }
+        // C08 (BOUNDED: 3 jobs, one grace value): a graceful quit with jobs that ignore the stop signal ends within the grace period plus a margin,
+        // whatever the number of jobs, and leaves no process behind
+        "graceful_quit_three_stubborn_jobs_within_grace" => {
+            use watchexec::command::{Command, Program, Shell};
+            use watchexec_signals::Signal;
+            let n = 3usize;
+            let pidfiles: Vec<_> = (0..n).map(|i| dir.join(format!("job{i}.pid"))).collect();
+            let pf = pidfiles.clone();
+            let started = Arc::new(AtomicUsize::new(0));
+            let st = started.clone();
+            let wx = Watchexec::new(move |mut action| {
+                if st.fetch_add(1, Ordering::SeqCst) == 0 {
+                    for p in &pf {
+                        let cmd = Arc::new(Command { program: Program::Shell { shell: Shell::new("sh"), command: format!("trap '' TERM; echo $$ > {}; exec sleep 600", p.display()), args: Vec::new() }, options: Default::default() });
+                        let (_, job) = action.create_job(cmd);
+                        job.start();
+                    }
+                } else {
+                    action.quit_gracefully(Signal::Terminate, Duration::from_millis(1500));
+                }
+                action
+            }).map_err(|e| e.to_string())?;
+            let main = wx.main();
+            wx.send_event(watchexec_events::Event::default(), watchexec_events::Priority::Urgent).await.map_err(|e| e.to_string())?;
+            let mut pids = Vec::new();
+            for p in &pidfiles {
+                let mut pid = None;
+                for _ in 0..200 { tokio::time::sleep(Duration::from_millis(20)).await; if let Ok(t) = std::fs::read_to_string(p) { if let Ok(x) = t.trim().parse::<i32>() { pid = Some(x); break; } } }
+                pids.push(pid.ok_or("setup: a job never started")?);
+            }
+            let t0 = std::time::Instant::now();
+            wx.send_event(watchexec_events::Event::default(), watchexec_events::Priority::Urgent).await.map_err(|e| e.to_string())?;
+            let done = tokio::time::timeout(Duration::from_secs(20), main).await;
+            let took = t0.elapsed();
+            tokio::time::sleep(Duration::from_millis(300)).await;
+            let alive: Vec<i32> = pids.iter().copied().filter(|p| std::path::Path::new(&format!("/proc/{p}")).exists()
+                && !std::fs::read_to_string(format!("/proc/{p}/stat")).map(|s| s.contains(") Z ")).unwrap_or(false)).collect();
+            for p in &alive { unsafe { extern "C" { fn kill(pid: i32, sig: i32) -> i32; } kill(*p, 9); } }
+            let _ = std::fs::remove_dir_all(&dir);
+            if done.is_err() { return Err(format!("main task still running 20 s after quit_gracefully(Terminate, 1.5s) with {n} jobs that ignore SIGTERM")); }
+            if took > Duration::from_millis(1500 + 1200) { return Err(format!("main task finished {took:?} after quit_gracefully(Terminate, 1.5s) with {n} jobs that ignore SIGTERM: more than the grace period plus a 1.2 s margin")); }
+            if took < Duration::from_millis(1400) { return Err(format!("main task finished after {took:?}: the 1.5 s grace period was not granted")); }
+            if !alive.is_empty() { return Err(format!("processes {alive:?} survived the graceful quit")); }
+            Ok(())
+        }
         _ => Err(format!("unknown scenario {name}")),
     }
 }
